@@ -26,6 +26,9 @@ def ub_of(b, op, depth=8):
         return None
     flds = [x for x in p[1] if isinstance(x, list) and x[0] == "f"]
     if flds:
+        pb = panics.param_field_bound(b, op)
+        if pb is not None:
+            return pb
         k = (flds[-1][3], flds[-1][2])
         if k in panics.FIELD_BOUNDS:
             return panics.FIELD_BOUNDS[k]
@@ -526,6 +529,9 @@ def run(ctx, rep):
     rep.not_decided += ["that accepted literals denote the right mathematical value (base conversion, underscores, unit sums, field order) - value computation, except the scale agreement decided by R-C09-scale"]
     rep.assumptions += ["python's sre parser reads the same regex subset as regex-syntax for the two address patterns (literals, classes, groups, ?, *)",
                         "FIELD_BOUNDS (femptos < 10^15) is maintained by rule R-C04-bound"]
+    # preconditions of the duration constructors, established from their call sites (publishes bounds used by the rules below)
+    from rules import c09_durrange
+    c09_durrange.run(ctx, rep)
     rule_cast(ctx, rep)
     rule_read(ctx, rep)
     rule_sign(ctx, rep)
